@@ -35,7 +35,7 @@ Proof. exact uniform_tree_lens. Qed.
 Print Assumptions C16_uniform_lengths.
 
 Theorem C16_uniform_below_minimum :
-  forall n rooted cs ls, n < 2 \/ (n < 3 /\ rooted = true) -> exists msg, uniform_tree n rooted cs ls = GErr msg.
+  forall n rooted cs ls, n < 3 -> exists msg, uniform_tree n rooted cs ls = GErr msg.
 Proof. exact uniform_tree_small. Qed.
 Print Assumptions C16_uniform_below_minimum.
 
@@ -54,7 +54,7 @@ Proof. exact yule_tree_lens. Qed.
 Print Assumptions C16_yule_lengths.
 
 Theorem C16_yule_below_minimum :
-  forall n rooted cs ls, n < 2 \/ (n < 3 /\ rooted = true) -> exists msg, yule_tree n rooted cs ls = GErr msg.
+  forall n rooted cs ls, n < 3 -> exists msg, yule_tree n rooted cs ls = GErr msg.
 Proof. exact yule_tree_small. Qed.
 Print Assumptions C16_yule_below_minimum.
 
@@ -76,19 +76,16 @@ Proof. exact caterpillar_tree_lens. Qed.
 Print Assumptions C16_caterpillar_lengths.
 
 Theorem C16_caterpillar_below_minimum :
-  forall n rooted ls, n < 2 \/ (n < 3 /\ rooted = true) -> exists msg, caterpillar_tree n rooted ls = GErr msg.
+  forall n rooted ls, n < 3 -> exists msg, caterpillar_tree n rooted ls = GErr msg.
 Proof. exact caterpillar_tree_small. Qed.
 Print Assumptions C16_caterpillar_below_minimum.
 
-(** * the documented minimum of the unrooted insertion generators is 2 tips ("less than 2
-    tips" is the rejected size): FALSE of the code, two tips are rejected with the error of
-    RerootFirst (the 2-tip tree has no node with 3 neighbours) *)
-Theorem C16_unrooted_two_tips_refuted :
-  forall ls, uniform_tree 2 false [] ls = GErr err_reroot_first /\
-             yule_tree 2 false [] ls = GErr err_reroot_first /\
-             caterpillar_tree 2 false ls = GErr err_reroot_first.
+(** two tips unrooted: a clean rejection by the size test *)
+Theorem C16_unrooted_two_tips_rejected :
+  forall cs ls, uniform_tree 2 false cs ls = GErr err_lt3u /\ yule_tree 2 false cs ls = GErr err_lt3u /\
+                caterpillar_tree 2 false ls = GErr err_lt3u.
 Proof. exact unrooted_two_tips_rejected. Qed.
-Print Assumptions C16_unrooted_two_tips_refuted.
+Print Assumptions C16_unrooted_two_tips_rejected.
 
 (** * RandomBalancedBinaryTree *)
 Theorem C16_balanced_rooted :
@@ -106,13 +103,13 @@ Proof. exact balanced_tree_unrooted_ok. Qed.
 Print Assumptions C16_balanced_unrooted.
 
 Theorem C16_balanced_rooted_lengths :
-  forall d ls t, 1 <= d -> Forall nonneg ls -> length ls = plan_floats (balanced_plan d) ->
+  forall d ls t, 1 <= d -> Forall nonneg ls -> length ls = plan_floats (balanced_plan d true) ->
     balanced_tree d true ls = GOk t -> lens_nonneg t = true.
 Proof. exact balanced_tree_rooted_lens. Qed.
 Print Assumptions C16_balanced_rooted_lengths.
 
 Theorem C16_balanced_unrooted_lengths :
-  forall d ls t, 2 <= d -> Forall nonneg ls -> length ls = plan_floats (balanced_plan d) ->
+  forall d ls t, 2 <= d -> Forall nonneg ls -> length ls = plan_floats (balanced_plan d false) ->
     balanced_tree d false ls = GOk t -> lens_nonneg t = true.
 Proof. exact balanced_tree_unrooted_lens. Qed.
 Print Assumptions C16_balanced_unrooted_lengths.
@@ -122,12 +119,11 @@ Theorem C16_balanced_below_minimum :
 Proof. exact balanced_tree_small. Qed.
 Print Assumptions C16_balanced_below_minimum.
 
-(** depth 1 unrooted: the two tips joined by one branch (the root is the tip Tip1) *)
-Theorem C16_balanced_depth1_unrooted :
-  forall ls, exists e,
-    balanced_tree 1 false ls = GOk (UNode (tip_name 1) [] [Some (e, UNode (tip_name 0) [] [None])]).
+(** depth 1 unrooted (two tips) is below the minimum of the unrooted generator *)
+Theorem C16_balanced_depth1_unrooted_rejected :
+  forall ls, exists msg, balanced_tree 1 false ls = GErr msg.
 Proof. exact balanced_depth1_unrooted. Qed.
-Print Assumptions C16_balanced_depth1_unrooted.
+Print Assumptions C16_balanced_depth1_unrooted_rejected.
 
 (** * StarTree *)
 Theorem C16_star :
